@@ -36,6 +36,7 @@ type instance struct {
 	termAfterClientDone bool
 	termTokened         bool        // its terminal was an error that named the operation (an engine failure, not a cancellation)
 	refusedCause        string      // legacy: its start was refused as a duplicate although the id was free; cause class of that refusal
+	hookErrOwed         bool        // hook-rejected subscribe on an id in use: one error naming it may come
 	seen                int         // data messages observed for it (in any state)
 	pendingDup          bool        // its id had an open instance when the subscribe was taken; decided at the next client message
 	blockers            []*instance // the open instances that were in the way
@@ -102,7 +103,7 @@ type wireMsg struct {
 
 var (
 	opTokRe  = regexp.MustCompile(`"op":(\d+)`)
-	errTokRe = regexp.MustCompile(`x_(\d+)`)
+	errTokRe = regexp.MustCompile(`\b[xh]_(\d+)`)
 )
 
 const heartbeatPayload = `{"type":"heartbeat"}`
@@ -233,6 +234,14 @@ func (m *machine) startOrDup(i int, e traceEv) {
 			m.optClose[4409] = true
 		}
 		m.label("C.subscribe:undecodable")
+	case dup && s.kind == kSubHookReject:
+		// The id is in use and the operation is one the before-start hook refuses. Whether a server
+		// looks at the id first (4409) or asks the hook first (error for that subscribe, named by its
+		// token, the running operation untouched) is its choice; the operation never starts.
+		in.reject = "hook-on-active-id"
+		in.hookErrOwed = true
+		m.optClose[4409] = true
+		m.label("C.subscribe:hook-rejected-on-active-id")
 	case dup:
 		// A duplicate unless the instances in the way end before the server reacts: the server takes
 		// the message first and checks the id a moment later, and an operation may send its terminal
@@ -350,7 +359,7 @@ func (m *machine) clientTWS(i int, e traceEv) {
 		m.label("C.ping")
 	case kPong:
 		m.label("C.pong")
-	case kSubQuery, kSubSub, kSubExecErr, kSubBadPayload, kSubGetFail:
+	case kSubQuery, kSubSub, kSubExecErr, kSubBadPayload, kSubGetFail, kSubHookReject:
 		if !m.initOK {
 			m.newInstance(e).reject = "before-init"
 			m.setFatal(i, 4401, "subscribe-before-init")
@@ -386,7 +395,7 @@ func (m *machine) clientGWS(i int, e traceEv) {
 		m.connErrOwed++
 		m.abandonAll()
 		m.label("C.init:rejected")
-	case kSubQuery, kSubSub, kSubExecErr, kSubBadPayload, kSubGetFail:
+	case kSubQuery, kSubSub, kSubExecErr, kSubBadPayload, kSubGetFail, kSubHookReject:
 		m.startOrDup(i, e)
 	case kComplete:
 		m.clientStop(s.id)
@@ -523,6 +532,8 @@ func optypeName(k symKind) string {
 		return "subscription"
 	case kSubExecErr:
 		return "invalid"
+	case kSubHookReject:
+		return "hook-rejected"
 	}
 	return "undecodable"
 }
@@ -560,12 +571,21 @@ func (m *machine) opMsg(i int, typ string, w wireMsg, raw string) {
 				m.label("S.error:duplicate-start-refused")
 				return
 			}
+			for _, hi := range m.inst {
+				if hi.id == w.ID && hi.hookErrOwed {
+					hi.hookErrOwed = false
+					m.label("S.error:duplicate-start-refused(hook-rejected op)")
+					return
+				}
+			}
 			// no start of this id is in doubt: the engine refuses a start whose id the trace shows free
 			cause := "other"
 			if st.last != nil && !st.last.terminated && st.last.seen == 0 && st.prev != nil && st.prev.terminated {
 				switch {
-				case st.prev.termKind == "error" && st.prev.kind == kSubSub && st.prev.termTokened:
+				case m.polledAfterError(w.ID):
 					cause = "subscription-error-continues"
+				case st.prev.kind == kSubHookReject:
+					cause = "hook-rejected-id-not-released"
 				case st.prev.refusedCause != "":
 					cause = st.prev.refusedCause // the id is still held by whatever caused the previous refusal
 				default:
@@ -615,6 +635,11 @@ func (m *machine) opMsg(i int, typ string, w wireMsg, raw string) {
 		m.label("C.subscribe:start-after-terminal-of-previous")
 		m.accept(in)
 	}
+	if !in.accepted && in.hookErrOwed && typ == "error" && tokened {
+		in.hookErrOwed = false
+		m.label("S.error:hook-rejection-on-active-id")
+		return
+	}
 	if !in.accepted {
 		mt := map[string]string{"late": typ, "reason": in.reject}
 		if in.reject == "duplicate-id" {
@@ -637,7 +662,7 @@ func (m *machine) opMsg(i int, typ string, w wireMsg, raw string) {
 	if in.terminated {
 		cause := "other"
 		switch {
-		case in.kind == kSubSub && in.termKind == "error" && in.termTokened:
+		case (in.kind == kSubSub && in.termKind == "error" && in.termTokened) || m.polledAfterError(in.id):
 			// the engine reports the failure of a subscription and keeps polling it: for the engine the
 			// operation is still active (it answers a complete, refuses the id, emits again)
 			cause = "subscription-error-continues"
@@ -763,6 +788,23 @@ func (m *machine) dupCause(id string, at int) string {
 	return "other"
 }
 
+// polledAfterError: has the id been used by a subscription whose failure the server reported with an
+// error message? The engine keeps such a subscription registered and polls it again (known defect
+// class "subscription-error-continues"): for the engine the id is still taken, whatever instances
+// the trace shows after it.
+func (m *machine) polledAfterError(id string) bool {
+	st := m.ids[id]
+	if st == nil {
+		return false
+	}
+	for _, o := range st.all {
+		if o.kind == kSubSub && o.terminated && o.termKind == "error" && o.termTokened {
+			return true
+		}
+	}
+	return false
+}
+
 func (m *machine) refusalReason(id string) string {
 	for _, in := range m.inst {
 		if in.id == id && !in.accepted {
@@ -818,9 +860,12 @@ func (m *machine) serverClose(i int, e traceEv) {
 			if mm := closeIDRe.FindStringSubmatch(e.Reason); mm != nil {
 				if st := m.ids[mm[1]]; st != nil && st.prev != nil && st.prev.terminated {
 					// the subscribe that was refused is st.last; the id was last used by st.prev
-					if st.prev.termKind == "error" && st.prev.kind == kSubSub && st.prev.termTokened {
+					switch {
+					case m.polledAfterError(mm[1]):
 						cause = "subscription-error-continues"
-					} else {
+					case st.prev.kind == kSubHookReject:
+						cause = "hook-rejected-id-not-released"
+					default:
 						cause = "terminal-sent-id-not-released"
 					}
 				}
@@ -895,6 +940,8 @@ func (m *machine) finish() {
 			ended = t.SelfEnds > 0 && t.Put
 		case kSubSub:
 			ended = t.SelfErrs > 0
+		case kSubHookReject:
+			ended = true // the hook refuses it while the subscribe is being handled
 		}
 		if ended && !in.terminated {
 			m.violate(end, "terminal.missing", fmt.Sprintf("the operation of step %d (id %s, %s) ended in the engine but the server sent no terminal message", tok, in.id, optypeName(in.kind)),
